@@ -263,22 +263,43 @@ func guardsOf(fn *ssa.Function, blk *ssa.BasicBlock) []edge {
 		if !ok {
 			continue
 		}
-		t, f := b.Succs[0], b.Succs[1]
-		if !(t == blk || t.Dominates(blk)) || len(t.Preds) != 1 {
-			continue
+		// which successor is taken when the test succeeds (the value is of the
+		// type / is not nil), in either spelling of the test
+		cond, neg := iff.Cond, false
+		for {
+			u, isU := cond.(*ssa.UnOp)
+			if !isU || u.Op != token.NOT {
+				break
+			}
+			cond, neg = u.X, !neg
 		}
-		switch cnd := iff.Cond.(type) {
+		pass := -1
+		switch cnd := cond.(type) {
 		case *ssa.Extract:
 			if ta, ok := cnd.Tuple.(*ssa.TypeAssert); ok && ta.CommaOk && cnd.Index == 1 {
-				out = append(out, edge{b, f})
+				pass = 0
 			}
 		case *ssa.BinOp:
-			if cnd.Op == token.NEQ {
-				if cst, ok := cnd.Y.(*ssa.Const); ok && cst.IsNil() {
-					out = append(out, edge{b, f})
+			if cst, ok := cnd.Y.(*ssa.Const); ok && cst.IsNil() {
+				switch cnd.Op {
+				case token.NEQ:
+					pass = 0
+				case token.EQL:
+					pass = 1
 				}
 			}
 		}
+		if pass < 0 {
+			continue
+		}
+		if neg {
+			pass = 1 - pass
+		}
+		t, f := b.Succs[pass], b.Succs[1-pass]
+		if !(t == blk || t.Dominates(blk)) || len(t.Preds) != 1 {
+			continue
+		}
+		out = append(out, edge{b, f})
 	}
 	return out
 }
